@@ -142,6 +142,13 @@ def run(chk, S: Session):
             S.absorb(it)
     terminal_rules(chk, S, r3)
     offgrid_rules(chk, S, r4)
+    # what offgrid_marginals starts from -- the filtering distributions and backward models of the finished solve -- must carry the same calibration as
+    # the scale it discretises with: the finalisation obligations of C03 (its rule functions are called directly: C03 borrows from this check)
+    from . import c03
+
+    r5 = chk.rule("R-C05-5", "the finished solve that offgrid_marginals interpolates is calibrated as a whole: finalize rescales marginals, backward models and filtering distributions "
+                  "of posterior0 / posterior / posterior1 with the same output scale (rule functions of C03)", floor=8)
+    c03.finalize_rules(chk, S, chk.rule("R-C05-5a", "finalize typing (auxiliary to R-C05-5; decided in C03 as R-C03-1)", floor=0), r5)
 
 
 def terminal_rules(chk, S, r3):
